@@ -1,6 +1,8 @@
 (* Props/C06.v — C06: replies reach exactly their requester; other messages are delivered once, in order.
    Theorems only.  Model: Model/Alloc.v with the allocator program regenerated into Gen/Alloc.v. *)
 From SG Require Import Base.Prelude Model.AllocLang Model.Alloc Gen.Alloc Proofs.AllocProofs Gen.Dispatcher Model.DispatchLoop Proofs.DispatchLoopProofs.
+From Coq Require Import Sorting.Sorted Sorting.Permutation.
+From SG Require Import Base.PyRt Gen.HandOver Model.HandOver Proofs.HandOverProofs.
 Open Scope Z_scope.
 
 (* the regenerated allocator: the expected micro-operations, inside the lock *)
@@ -80,3 +82,38 @@ Theorem C06_stop_discards_queued_refuted :
   (d_delivered s = 1 /\ d_queue s = 0 /\ forall tr, Forall (fun a => a = SDispatcher) tr -> d_delivered (drun true s tr) = 1)%nat.
 Proof. exact stop_discards_queued. Qed.
 Print Assumptions C06_stop_discards_queued_refuted.
+
+(* Who hands a message to whom.  The receiver thread hands the reply to an open transaction to its requester itself (D76); the decision is
+   Protocol._deliver_message, regenerated into Gen/HandOver.v (`deliver_action`), the threads are the interleaving model of Model/HandOver.v:
+   the receiver thread's check and its hand-over are two steps, the requester may give up (T3) at any moment, the dispatcher thread pops the
+   dispatch queue.  For every list of arrivals (numbered in arrival order, any of them a possible reply) and EVERY schedule:
+   only the dispatcher thread hands messages to the application; it does so in arrival order; the requester is only ever given messages
+   that can be its reply; and every arrival is in exactly one place - nothing is lost, nothing handed over twice. *)
+Theorem C06_only_the_dispatcher_hands_over : forall arrivals sched,
+  StronglySorted lt (map mid arrivals) ->
+  let s := hrun deliver_action (hstart arrivals) sched in
+  Forall (fun x => snd x = true) (app s) /\
+  StronglySorted lt (map mid (map fst (app s))) /\
+  Forall (fun m => cand m = true) (got s) /\
+  Permutation (everything s) arrivals.
+Proof. exact handover_holds. Qed.
+Print Assumptions C06_only_the_dispatcher_hands_over.
+
+(* ... and once the threads have come to rest, every arrival is with the application or with the requester, exactly once *)
+Theorem C06_handed_over_exactly_once : forall arrivals sched,
+  StronglySorted lt (map mid arrivals) ->
+  let s := hrun deliver_action (hstart arrivals) sched in
+  quiet s = true -> Permutation (map fst (app s) ++ got s) arrivals.
+Proof. exact handover_complete. Qed.
+Print Assumptions C06_handed_over_exactly_once.
+
+(* the decision as it was before D78 (the receiver thread, finding nobody waiting any more, fired message_received itself): the schedule of
+   the finding hands the late reply over from the receiver thread, ahead of the two messages that arrived before it; the regenerated
+   decision under the same schedule hands all three over by the dispatcher thread, in arrival order *)
+Theorem C06_before_D78_refuted :
+  (let s := hrun deliver_before_D78 (hstart d78_arrivals) d78_schedule in
+   map (fun x => (mid (fst x), snd x)) (app s) = [(3, false); (1, true); (2, true)]%nat) /\
+  (let s := hrun deliver_action (hstart d78_arrivals) (d78_schedule ++ [DPop]) in
+   map (fun x => (mid (fst x), snd x)) (app s) = [(1, true); (2, true); (3, true)]%nat /\ quiet s = true).
+Proof. exact (conj before_D78_refuted after_D78_same_schedule). Qed.
+Print Assumptions C06_before_D78_refuted.
